@@ -404,8 +404,53 @@ type PtrKeyMap struct {
 	PT map[*TextP]int
 }
 
+// Pointer-shaped marshaler types: a struct with a single pointer field and a
+// one-element array of pointers are stored directly in an interface word, like
+// a pointer; their value-receiver methods must get the stored pointer, not the
+// address of the slot that holds it.
+type PShapeJ struct{ P *Base }
+
+func (x PShapeJ) MarshalJSON() ([]byte, error) {
+	if x.P == nil {
+		return []byte(`{"pshape":null}`), nil
+	}
+	return []byte(`{"pshape":` + strconv.Itoa(x.P.ID) + `}`), nil
+}
+
+type PShapeT struct{ P *NamedInt }
+
+func (x PShapeT) MarshalText() ([]byte, error) {
+	if x.P == nil {
+		return []byte("nil"), nil
+	}
+	return []byte("t" + strconv.Itoa(int(*x.P))), nil
+}
+
+type PShapeArr [1]*Base
+
+func (x PShapeArr) MarshalJSON() ([]byte, error) {
+	if x[0] == nil {
+		return []byte(`[null]`), nil
+	}
+	return []byte(`[` + strconv.Itoa(x[0].ID) + `]`), nil
+}
+
+// PShapes reaches them by value through every kind of container (map values and
+// keys, interfaces, slices, arrays and fields are different compile paths).
+type PShapes struct {
+	V  PShapeJ
+	T  PShapeT
+	A  PShapeArr
+	MV map[string]PShapeJ
+	MT map[string]PShapeT
+	I  interface{}
+	L  []PShapeJ
+	LT [2]PShapeT
+	LA []PShapeArr
+}
+
 // EncodeOnly are additional types for the encoding direction.
-var EncodeOnly = []reflect.Type{reflect.TypeOf(PtrKeyMap{})}
+var EncodeOnly = []reflect.Type{reflect.TypeOf(PtrKeyMap{}), reflect.TypeOf(PShapeJ{}), reflect.TypeOf(PShapeT{}), reflect.TypeOf(PShapeArr{}), reflect.TypeOf(PShapes{})}
 
 // All is the list handed to the generators.
 var All = []reflect.Type{
